@@ -2742,7 +2742,6 @@ func runBal1(m *Model, r *RuleResult) {
 	}
 }
 
-
 // ---------- BEST-1, record spelling: the run returns one struct {crossings int; positions map} ----------
 
 // best1StructMode decides BEST-1 when count and positions travel together in a record. The pairing is then by construction
